@@ -92,16 +92,30 @@ Definition enter (b : bconfig) (c : xctx) (name : str) : xctx :=
   mkx (memS name (c_pw b) || x_pres c)
       (match assocS name (c_containers b) with Some k => k | None => x_cont c end).
 
-(* a completed run of character data (most recent chunk first) becomes one string *)
+(* a completed run of character data (most recent chunk first) becomes one string; whitespace-only TEXT
+   outside whitespace-preserving elements collapses, a special string (comment, CDATA, doctype, declaration,
+   processing instruction) keeps exactly its content *)
 Definition xflush (b : bconfig) (c : xctx) (pend : list str) (cls : option N) : list xtree :=
   match pend with
   | [] => []
   | _ =>
       let text := concat (rev pend) in
-      let text := if negb (x_pres c) && all_in (c_spaces b) text
+      let special := match cls with Some k => preformatted_cls k | None => false end in
+      let text := if negb special && negb (x_pres c) && all_in (c_spaces b) text
                   then (if memN 10%N text then [10%N] else [32%N]) else text in
       let k := match cls with Some k => if N.eqb k 0 then x_cont c else k | None => x_cont c end in
       [XStr k text]
+  end.
+
+(* the special strings of a document: class and content as written *)
+Definition special_of (d : dnode) : option (N * str) :=
+  match d with
+  | DComment s => Some (cls_comment, s)
+  | DDoctype _ s => Some (cls_doctype, s)
+  | DCdata _ s => Some (cls_cdata, s)
+  | DDecl s => Some (cls_declaration, s)
+  | DPi s => Some (cls_pi, s)
+  | _ => None
   end.
 
 (* one node: the trees it completes and the character data still being gathered afterwards *)
